@@ -236,6 +236,7 @@ def rule_sameblock(ctx, rep):
 
 
 def run(ctx, rep):
+    balance.rule_release_retarget(ctx, rep)  # release-then-store through `&mut Handle` must store on unwinding exits too
     rule_sameblock(ctx, rep)
     balance.rule_bal(ctx, rep)
     balance.rule_unw(ctx, rep)
